@@ -40,7 +40,7 @@ pub fn run(id: &'static str, tier: Tier, seed: u64) -> Option<Evidence> {
             );
             ev.assume("f64 numerals are judged with std's str::parse::<f64> (correctly rounded), integers with the harness's own decimal printer");
             let c = FmtCampaign::new("fmt-line", Focus::Line);
-            driver::run_random(&c, &ev, &ctx, scale(tier.pick(40_000, 1_000_000)), sh);
+            driver::run_random(&c, &ev, &ctx, scale(tier.pick(200_000, 2_000_000)), sh);
             c.report(&ev);
             fuzz_tier(id, Target::Fmt, &ev, &ctx, tier);
             Some(ev)
@@ -54,7 +54,7 @@ pub fn run(id: &'static str, tier: Tier, seed: u64) -> Option<Evidence> {
                 "edge-biased integers (MIN/MAX/0/2^k+-1/10^k+-1), finite f64 bit patterns (random sign/exponent/mantissa, subnormals, table of shortest-repr edge cases), Durations uniform and clustered +-2 around the ms and ns overflow boundaries, packed lists 0..40; oracle parses each numeral back (i128 / bit-identical f64) and demands InvalidInput + zero emits on overflow. Non-trivial: value outside +-2^31, non-integral/subnormal float, Duration within 2 units of a boundary, or list length >= 2; distinct by case hash.",
             );
             let c = FmtCampaign::new("fmt-value", Focus::Value);
-            driver::run_random(&c, &ev, &ctx, scale(tier.pick(60_000, 2_000_000)), sh);
+            driver::run_random(&c, &ev, &ctx, scale(tier.pick(300_000, 3_000_000)), sh);
             c.report(&ev);
             fuzz_tier(id, Target::Fmt, &ev, &ctx, tier);
             Some(ev)
@@ -68,10 +68,10 @@ pub fn run(id: &'static str, tier: Tier, seed: u64) -> Option<Evidence> {
                 "histories of 1..12 calls (all entries x forms, valid and overflowing values) on one client over a scripted sink (Accept(any n) | Refuse(io::ErrorKind, unique token)) with a logging error handler; per call the sink-log delta, handler-log delta and result are compared. Thorough additionally enumerates all 2^n accept/refuse scripts for generated call lists with n<=7. Non-trivial: history with both an accepted and a refused/invalid call; distinct by the (entry, form, outcome) sequence.",
             );
             let c = FmtCampaign::new("fmt-outcome", Focus::Outcome);
-            driver::run_random(&c, &ev, &ctx, scale(tier.pick(20_000, 400_000)), sh);
+            driver::run_random(&c, &ev, &ctx, scale(tier.pick(100_000, 1_000_000)), sh);
             c.report(&ev);
             let x = OutcomeExhaustive::new();
-            driver::run_random(&x, &ev, &ctx, scale(tier.pick(300, 6_000)), sh);
+            driver::run_random(&x, &ev, &ctx, scale(tier.pick(1_500, 15_000)), sh);
             ev.set_exhaustive(false);
             Some(ev)
         }
@@ -84,7 +84,7 @@ pub fn run(id: &'static str, tier: Tier, seed: u64) -> Option<Evidence> {
                 "client configurations with 0..6 default tags (key:value and bare, duplicates, empty strings) with/without default container x 1..3 consecutive calls over all entries incl. incr/decr x forms x per-call tag sequences and container overrides; tag and container sections must equal defaults-in-order ++ call-tags-in-order and override-else-default. Non-trivial: >=1 default tag and >=1 call tag, or a per-call container override; distinct by case hash.",
             );
             let c = FmtCampaign::new("fmt-decor", Focus::Decor);
-            driver::run_random(&c, &ev, &ctx, scale(tier.pick(40_000, 1_000_000)), sh);
+            driver::run_random(&c, &ev, &ctx, scale(tier.pick(200_000, 2_000_000)), sh);
             c.report(&ev);
             Some(ev)
         }
@@ -119,7 +119,7 @@ pub fn run(id: &'static str, tier: Tier, seed: u64) -> Option<Evidence> {
                 "one fresh child process per generated case = {global client: unset | prefix, default tags, container, handler, sink outcome per invocation; optional second set_global_default}, 1..40 macro invocations over the seven macros x all 22 value types x 0..3 `key => value` tags, every argument wrapped in a counting once(..). Oracle in the parent: exactly one emit whose line equals the reference renderer and the line emitted in the same child by the explicit get_global_default().unwrap().<kind>_with_tags(k, v).with_tag(..)*.send() chain; each argument evaluated once; refusing sink => no panic, the client's handler gets exactly that error; unset => every macro panics. Non-trivial: (default tags or a failing sink) and an invocation with >=2 tags; distinct by case hash.",
             );
             ev.assume("tag counts above 3 are not instantiated (call sites are static)");
-            driver::run_random(&crate::macros_child::MacroCampaign, &ev, &ctx, scale(tier.pick(600, 20_000)), sh);
+            driver::run_random(&crate::macros_child::MacroCampaign, &ev, &ctx, scale(tier.pick(3_000, 40_000)), sh);
             Some(ev)
         }
         #[cfg(cadence_verif)]
@@ -173,7 +173,7 @@ fn run_sched(id: &'static str, tier: Tier, seed: u64, ctx: &Ctx, sh: u32) -> Evi
     }));
     ev.set_exhaustive(false);
     if ok {
-        driver::run_random(&SchedCampaign, &ev, ctx, scale(tier.pick(30_000, 1_000_000)), sh);
+        driver::run_random(&SchedCampaign, &ev, ctx, scale(tier.pick(60_000, 1_500_000)), sh);
     }
     ev
 }
@@ -296,12 +296,12 @@ fn socket_seams(id: &str) -> Vec<(SockCampaign, u32, u32)> {
     vec![
         (
             SockCampaign { name: names[0], focus: SRule::Trace(rule), gen: sgen(Some(Transport::Unix), Some(true), faults, 0.0, 30) },
-            if faults { 600 } else { 1_500 },
+            if faults { 1_500 } else { 4_000 },
             30_000,
         ),
         (
             SockCampaign { name: names[1], focus: SRule::Trace(rule), gen: sgen(Some(Transport::Udp), Some(true), faults, 0.0, 30) },
-            if faults { 400 } else { 1_500 },
+            if faults { 1_000 } else { 4_000 },
             30_000,
         ),
     ]
@@ -310,12 +310,12 @@ fn socket_seams(id: &str) -> Vec<(SockCampaign, u32, u32)> {
 fn sock_campaigns(id: &str) -> Vec<(SockCampaign, u32, u32)> {
     match id {
         "C13" => vec![
-            (SockCampaign { name: "sock-wire-unbuffered", focus: SRule::Wire, gen: sgen(None, Some(false), true, 0.0, 12) }, 1_500, 80_000),
-            (SockCampaign { name: "sock-wire-buffered", focus: SRule::Wire, gen: sgen(None, Some(true), false, 0.0, 30) }, 1_500, 80_000),
+            (SockCampaign { name: "sock-wire-unbuffered", focus: SRule::Wire, gen: sgen(None, Some(false), true, 0.0, 12) }, 6_000, 150_000),
+            (SockCampaign { name: "sock-wire-buffered", focus: SRule::Wire, gen: sgen(None, Some(true), false, 0.0, 30) }, 5_000, 150_000),
         ],
         "C14" => vec![
-            (SockCampaign { name: "sock-telemetry", focus: SRule::Telemetry, gen: sgen(None, None, true, 0.3, 25) }, 2_000, 100_000),
-            (SockCampaign { name: "sock-telemetry-unix-faults", focus: SRule::Telemetry, gen: sgen(Some(Transport::Unix), None, true, 0.3, 30) }, 1_000, 50_000),
+            (SockCampaign { name: "sock-telemetry", focus: SRule::Telemetry, gen: sgen(None, None, true, 0.3, 25) }, 8_000, 200_000),
+            (SockCampaign { name: "sock-telemetry-unix-faults", focus: SRule::Telemetry, gen: sgen(Some(Transport::Unix), None, true, 0.3, 30) }, 4_000, 100_000),
         ],
         _ => vec![],
     }
@@ -345,7 +345,7 @@ fn run_sockets(id: &'static str, tier: Tier, seed: u64, ctx: &Ctx, sh: u32) -> E
         }
     }
     if id == "C14" {
-        driver::run_random(&ConcSockCampaign, &ev, ctx, scale(tier.pick(20, 500)), 2);
+        driver::run_random(&ConcSockCampaign, &ev, ctx, scale(tier.pick(60, 1_000)), 2);
     }
     ev
 }
@@ -365,15 +365,15 @@ fn qgen(emit_w: u32, clone_w: u32, drop_w: u32, step_w: u32, err_w: u32, panic_w
 
 fn queue_campaigns(id: &str) -> Vec<(QueueCampaign, u32, u32)> {
     match id {
-        "C08" => vec![(QueueCampaign::new("queue-deliver", QRule::Deliver, qgen(5, 2, 2, 4, 1, 1, 0.3)), 4_000, 150_000)],
+        "C08" => vec![(QueueCampaign::new("queue-deliver", QRule::Deliver, qgen(5, 2, 2, 4, 1, 1, 0.3)), 20_000, 300_000)],
         "C09" => vec![
-            (QueueCampaign::new("queue-endings", QRule::Shutdown, QGenKind::Endings), 2_000, 70_000),
-            (QueueCampaign::new("queue-shutdown-general", QRule::Shutdown, qgen(5, 2, 3, 3, 1, 1, 0.3)), 1_000, 30_000),
+            (QueueCampaign::new("queue-endings", QRule::Shutdown, QGenKind::Endings), 10_000, 150_000),
+            (QueueCampaign::new("queue-shutdown-general", QRule::Shutdown, qgen(5, 2, 3, 3, 1, 1, 0.3)), 5_000, 60_000),
         ],
-        "C10" => vec![(QueueCampaign::new("queue-isolation", QRule::Isolation, qgen(8, 1, 0, 2, 2, 2, 0.3)), 3_000, 100_000)],
-        "C11" => vec![(QueueCampaign::new("queue-panics", QRule::Panics, qgen(5, 1, 1, 5, 1, 5, 0.3)), 2_500, 60_000)],
-        "C15" => vec![(QueueCampaign::new("queue-counters", QRule::Counters, qgen(8, 1, 1, 3, 1, 2, 0.3)), 3_000, 100_000)],
-        "C16" => vec![(QueueCampaign::new("queue-handler", QRule::Handler, qgen(5, 1, 1, 5, 6, 0, 0.75)), 3_000, 100_000)],
+        "C10" => vec![(QueueCampaign::new("queue-isolation", QRule::Isolation, qgen(8, 1, 0, 2, 2, 2, 0.3)), 15_000, 200_000)],
+        "C11" => vec![(QueueCampaign::new("queue-panics", QRule::Panics, qgen(5, 1, 1, 5, 1, 5, 0.3)), 8_000, 120_000)],
+        "C15" => vec![(QueueCampaign::new("queue-counters", QRule::Counters, qgen(8, 1, 1, 3, 1, 2, 0.3)), 15_000, 200_000)],
+        "C16" => vec![(QueueCampaign::new("queue-handler", QRule::Handler, qgen(5, 1, 1, 5, 6, 0, 0.75)), 15_000, 200_000)],
         _ => vec![],
     }
 }
@@ -438,7 +438,7 @@ fn run_queue(id: &'static str, tier: Tier, seed: u64, ctx: &Ctx, sh: u32) -> Evi
     match id {
         "C08" => {
             let c = ConcCampaign { name: "queue-deliver-concurrent", focus: QRule::Deliver };
-            driver::run_random(&c, &ev, ctx, scale(tier.pick(40, 600)), 4);
+            driver::run_random(&c, &ev, ctx, scale(tier.pick(100, 1_500)), 4);
             ev.set_exhaustive(false);
         }
         "C09" => {
@@ -450,7 +450,7 @@ fn run_queue(id: &'static str, tier: Tier, seed: u64, ctx: &Ctx, sh: u32) -> Evi
         }
         "C10" => {
             let c = ConcCampaign { name: "queue-isolation-concurrent", focus: QRule::Isolation };
-            driver::run_random(&c, &ev, ctx, scale(tier.pick(30, 500)), 4);
+            driver::run_random(&c, &ev, ctx, scale(tier.pick(100, 1_500)), 4);
         }
         "C11" => {
             let c = QueueCampaign::new("queue-panics-enumerated", QRule::Panics, QGenKind::Endings);
@@ -461,7 +461,7 @@ fn run_queue(id: &'static str, tier: Tier, seed: u64, ctx: &Ctx, sh: u32) -> Evi
         }
         "C15" => {
             let c = ConcCampaign { name: "queue-counters-sampler", focus: QRule::Counters };
-            driver::run_random(&c, &ev, ctx, scale(tier.pick(20, 400)), 2);
+            driver::run_random(&c, &ev, ctx, scale(tier.pick(60, 1_000)), 2);
         }
         "C16" => {
             let c = QueueCampaign::new("queue-handler-enumerated", QRule::Handler, QGenKind::Endings);
@@ -479,31 +479,31 @@ fn writer_campaigns(id: &str) -> Vec<(WriterCampaign, u32, u32)> {
     // (campaign, quick cases, thorough cases)
     match id {
         "C05" => vec![
-            (WriterCampaign::new("mlw-framing", Rule::Framing, Seam::Mlw, gen_default(40, false)), 50_000, 1_700_000),
-            (WriterCampaign::new("mlw-framing-tinycap", Rule::Framing, Seam::MlwTiny, gen_default(30, false)), 10_000, 300_000),
-            (WriterCampaign::new("spy-framing", Rule::Framing, Seam::Spy, gen_default(40, false)), 5_000, 170_000),
-            (WriterCampaign::new("spy-default-framing", Rule::Framing, Seam::SpyDefault, gen_default(12, false)), 1_000, 30_000),
+            (WriterCampaign::new("mlw-framing", Rule::Framing, Seam::Mlw, gen_default(40, false)), 200_000, 3_000_000),
+            (WriterCampaign::new("mlw-framing-tinycap", Rule::Framing, Seam::MlwTiny, gen_default(30, false)), 40_000, 500_000),
+            (WriterCampaign::new("spy-framing", Rule::Framing, Seam::Spy, gen_default(40, false)), 20_000, 300_000),
+            (WriterCampaign::new("spy-default-framing", Rule::Framing, Seam::SpyDefault, gen_default(12, false)), 4_000, 60_000),
         ],
         "C06" => vec![
-            (WriterCampaign::new("mlw-conservation", Rule::Conservation, Seam::Mlw, gen_default(40, false)), 35_000, 1_000_000),
-            (WriterCampaign::new("mlw-conservation-tinycap", Rule::Conservation, Seam::MlwTiny, gen_default(30, false)), 5_000, 200_000),
-            (WriterCampaign::new("spy-conservation", Rule::Conservation, Seam::Spy, gen_default(40, false)), 3_000, 100_000),
-            (WriterCampaign::new("client-spy-conservation", Rule::Conservation, Seam::ClientSpy, gen_default(40, false)), 5_000, 150_000),
-            (WriterCampaign::new("queue-client-spy-conservation", Rule::Conservation, Seam::QueueClientSpy, gen_default(25, false)), 1_500, 40_000),
+            (WriterCampaign::new("mlw-conservation", Rule::Conservation, Seam::Mlw, gen_default(40, false)), 150_000, 2_000_000),
+            (WriterCampaign::new("mlw-conservation-tinycap", Rule::Conservation, Seam::MlwTiny, gen_default(30, false)), 20_000, 400_000),
+            (WriterCampaign::new("spy-conservation", Rule::Conservation, Seam::Spy, gen_default(40, false)), 12_000, 200_000),
+            (WriterCampaign::new("client-spy-conservation", Rule::Conservation, Seam::ClientSpy, gen_default(40, false)), 20_000, 300_000),
+            (WriterCampaign::new("queue-client-spy-conservation", Rule::Conservation, Seam::QueueClientSpy, gen_default(25, false)), 4_000, 80_000),
         ],
         "C07" => vec![
-            (WriterCampaign::new("mlw-faults", Rule::Fault, Seam::Mlw, gen_default(30, true)), 50_000, 900_000),
-            (WriterCampaign::new("mlw-faults-tinycap", Rule::Fault, Seam::MlwTiny, gen_default(20, true)), 10_000, 100_000),
-            (WriterCampaign::new("spy-bounded-faults", Rule::Fault, Seam::SpyBounded, gen_default(30, true)), 5_000, 100_000),
+            (WriterCampaign::new("mlw-faults", Rule::Fault, Seam::Mlw, gen_default(30, true)), 200_000, 2_000_000),
+            (WriterCampaign::new("mlw-faults-tinycap", Rule::Fault, Seam::MlwTiny, gen_default(20, true)), 40_000, 400_000),
+            (WriterCampaign::new("spy-bounded-faults", Rule::Fault, Seam::SpyBounded, gen_default(30, true)), 20_000, 300_000),
         ],
         "C19" => {
             let mut long = gen_default(200, false);
             long.flush_weight = 1;
             vec![
-                (WriterCampaign::new("mlw-greedy", Rule::Greedy, Seam::Mlw, gen_default(40, false)), 25_000, 800_000),
-                (WriterCampaign::new("mlw-greedy-long", Rule::Greedy, Seam::Mlw, long), 10_000, 500_000),
-                (WriterCampaign::new("mlw-greedy-tinycap", Rule::Greedy, Seam::MlwTiny, gen_default(30, false)), 3_000, 100_000),
-                (WriterCampaign::new("spy-greedy", Rule::Greedy, Seam::Spy, long), 2_000, 100_000),
+                (WriterCampaign::new("mlw-greedy", Rule::Greedy, Seam::Mlw, gen_default(40, false)), 100_000, 1_500_000),
+                (WriterCampaign::new("mlw-greedy-long", Rule::Greedy, Seam::Mlw, long), 30_000, 600_000),
+                (WriterCampaign::new("mlw-greedy-tinycap", Rule::Greedy, Seam::MlwTiny, gen_default(30, false)), 12_000, 200_000),
+                (WriterCampaign::new("spy-greedy", Rule::Greedy, Seam::Spy, long), 6_000, 150_000),
             ]
         }
         _ => vec![],
@@ -539,7 +539,7 @@ fn run_writer(id: &'static str, tier: Tier, seed: u64, ctx: &Ctx, sh: u32) -> Ev
             return ev;
         }
         let ft = FaultTree { depth: 10 };
-        driver::run_random(&ft, &ev, ctx, scale(tier.pick(150, 3_000)), sh);
+        driver::run_random(&ft, &ev, ctx, scale(tier.pick(600, 6_000)), sh);
         ev.set_exhaustive(false);
     }
     if matches!(id, "C05" | "C07" | "C19") {
